@@ -38,9 +38,9 @@ type c31in struct {
 
 type c31out struct {
 	Panic bool
-	Err bool
-	V   int  // read: active version (0 = absent)
-	OK  bool // readuser
+	Err   bool
+	V     int  // read: active version (0 = absent)
+	OK    bool // readuser
 }
 
 // sequential specification, one partition per namespace
@@ -114,8 +114,8 @@ var c31model = porcupine.Model{
 }
 
 type c31world struct {
-	panicked string
-	ops     []porcupine.Operation
+	panicked    string
+	ops         []porcupine.Operation
 	interleaved bool
 }
 
